@@ -713,6 +713,16 @@ def run(ctx):
             if ctx.mine(idx):
                 judge(ctx, kname, "comment-root", t, backend, True, False, root="Comment")
     idx = shared_ast_lane(ctx, idx)
+    # fields that are extension descriptors of the mapped class (hybrid properties): legitimate fields on the ORM
+    for text in ("double_rating gt 7201", "7202 lt double_rating", "contains(title_lc, 'zh1')", "title_lc eq 'zh2'",
+                 "double_rating in (7203, 7204)", "tolower(title_lc) ne 'zh3' and double_rating add 1 ge 7205",
+                 "comments/any(c: c/post/double_rating gt 7206)", "startswith(title_lc, 'zh4') or endswith(title_lc, 'zh5')",
+                 "length(title_lc) gt 7207", "not (double_rating eq null)"):
+        idx += 1
+        if ctx.mine(idx):
+            ctx.cls("orm-extension-field")
+            judge(ctx, "ident-hybrid", "orm-root", drive.parse_term(text)[1], "sqlalchemy-orm", True, False,
+                  check_leaves=False, root="Post")
     ctx.count("exhaustive_complete")
     # thorough: random well-typed compositions (every function, nested) through all backends;
     # judged on fall-through / None parts / foreign exceptions only (no leaf matching)
